@@ -250,6 +250,7 @@ func runCase(run *hx.Run, idx int, r *hx.Rand, tmpRoot string) {
 	disk := make([]bool, nb)
 	bases := make([]storage.ReadWriteBucket, nb)
 	ref := make([]map[string]string, nb)
+	diskRoots := make([]string, nb)
 	var tmp string
 	anyDisk := false
 	for i := range bases {
@@ -261,6 +262,7 @@ func runCase(run *hx.Run, idx int, r *hx.Rand, tmpRoot string) {
 			}
 			d := filepath.Join(tmp, "b"+strconv.Itoa(i))
 			must(os.MkdirAll(d, 0o755))
+			diskRoots[i] = d
 			b, err := storageos.NewProvider().NewReadWriteBucket(d)
 			must(err)
 			bases[i] = b
@@ -312,8 +314,15 @@ func runCase(run *hx.Run, idx int, r *hx.Rand, tmpRoot string) {
 			if r.Chance(1, 12) {
 				o.path = hx.Pick(r, []string{".", "", "../x", "/abs", "a/..", "a/../.."})
 			}
+			if r.Chance(1, 10) {
+				// a name that is a directory of the pool, or lies below a pool file
+				o.path = hx.Pick(r, []string{"a", "c/d", "a/sub", "b/child", "a/x/deep", "ab/t", "c", "s t"})
+			}
 		case k < 9:
 			o = op{kind: 'd', base: r.Intn(nb), path: spell(r, hx.Pick(r, pool))}
+			if r.Chance(1, 6) {
+				o.path = hx.Pick(r, []string{"a", "c/d", "a/sub", "b/child", "a/x/deep", "c", "s t", "é"})
+			}
 		case k < 11:
 			o = op{kind: 'D', base: r.Intn(nb), path: spell(r, hx.Pick(r, append(append([]string{}, dirs...), pool...)))}
 		case k < 14:
@@ -338,33 +347,16 @@ func runCase(run *hx.Run, idx int, r *hx.Rand, tmpRoot string) {
 				continue
 			}
 		}
-		// disk bases: skip writes that would make a file and a directory share a name
-		if (o.kind == 'p') && disk[o.base] {
+		// disk bases obey the file TREE (BufModel.Disk): a put below a file or onto a directory
+		// fails, a delete of a non-empty directory fails, a delete of an empty leftover
+		// directory succeeds. These are compared with the model; the reference-MAP oracle only
+		// judges ops that do not address a directory.
+		addressesDir := false
+		if disk[o.base] && (o.kind == 'd' || o.kind == 'p') {
 			if n, err := normalpath.NormalizeAndValidate(o.path); err == nil && n != "." {
-				conflict := false
-				for p := range ref[o.base] {
-					if p != n && (under(p, n) || under(n, p)) {
-						conflict = true
-					}
-				}
-				if conflict {
-					run.Count("skip:disk-conflict")
-					continue
-				}
-			}
-		}
-		if o.kind == 'd' && disk[o.base] {
-			// deleting a directory name on disk is outside the model (prefix-free hypothesis)
-			if n, err := normalpath.NormalizeAndValidate(o.path); err == nil {
-				isDir := false
-				for p := range ref[o.base] {
-					if p != n && under(n, p) {
-						isDir = true
-					}
-				}
-				if isDir {
-					run.Count("skip:disk-delete-dir")
-					continue
+				if fi, serr := os.Stat(filepath.Join(diskRoots[o.base], filepath.FromSlash(n))); serr == nil && fi.IsDir() {
+					addressesDir = true
+					run.Count("disk:op-addresses-directory")
 				}
 			}
 		}
@@ -386,7 +378,7 @@ func runCase(run *hx.Run, idx int, r *hx.Rand, tmpRoot string) {
 			res = bk.ErrClass(err)
 			if n, verr := normalpath.NormalizeAndValidate(o.path); verr == nil {
 				_, had := ref[o.base][n]
-				if had != (err == nil) && n != "." {
+				if had != (err == nil) && n != "." && !addressesDir {
 					fail("delete-vs-reference", fmt.Sprintf("delete %q on base%d: object existed=%v but result %s", o.path, o.base, had, res))
 				}
 				delete(ref[o.base], n)
@@ -413,6 +405,10 @@ func runCase(run *hx.Run, idx int, r *hx.Rand, tmpRoot string) {
 			res = bk.ErrClass(err)
 		case 'w':
 			kvs, err := bk.WalkAll(ctx, comp, o.path)
+			if err == bk.ErrRootObject {
+				run.Count("skip:walk-root-object")
+				continue
+			}
 			if err != nil {
 				res = bk.ErrClass(err)
 			} else {
@@ -450,7 +446,15 @@ func runCase(run *hx.Run, idx int, r *hx.Rand, tmpRoot string) {
 				continue
 			}
 			if err != nil {
-				res = bk.ErrClass(err)
+				res = "err" // the three mechanisms meet the first error at different moments
+				// a failed copy may have copied some objects before the error: the reference of
+				// the target is re-read (an error WAS reported, which is all the property asks)
+				if kvs, werr := bk.WalkAll(ctx, bases[o.base], ""); werr == nil {
+					ref[o.base] = map[string]string{}
+					for _, kv := range kvs {
+						ref[o.base][kv.K] = canonContent(kv.V)
+					}
+				}
 			} else {
 				res = "ok:" + strconv.Itoa(cnt)
 			}
@@ -521,7 +525,15 @@ func runCase(run *hx.Run, idx int, r *hx.Rand, tmpRoot string) {
 	if anyDisk {
 		run.Count("case:has-disk-base")
 	}
-	run.Case("hist2\t"+e.enc()+"\t"+strconv.Itoa(nb)+"\t"+opsEnc, sb.String(), nontrivial)
+	kinds := ""
+	for i := range disk {
+		if disk[i] {
+			kinds += "d"
+		} else {
+			kinds += "m"
+		}
+	}
+	run.Case("hist2\t"+e.enc()+"\t"+kinds+"\t"+opsEnc, sb.String(), nontrivial)
 	if idx < 4 {
 		in := input()
 		in["results"] = results
@@ -579,6 +591,9 @@ var errSkip = fmt.Errorf("skip")
 // updates the reference map of the target from a walk of comp taken BEFORE the copy.
 func doCopy(comp storage.ReadBucket, target storage.ReadWriteBucket, how string, targetDisk bool, ref map[string]string) (int, error) {
 	src, werr := bk.WalkAll(ctx, comp, "")
+	if werr == bk.ErrRootObject {
+		return 0, errSkip
+	}
 	if werr == nil && targetDisk {
 		for _, kv := range src {
 			for p := range ref {
